@@ -6,7 +6,7 @@ run 2 C11 C12 C13 C14 C15 C16 C17 C18 C19 C20 W &
 run 3 X Y Z &
 run 4 A R S &
 run 5 T U V &
-run 6 P Q M N &
+run 6 P Q M N K run 6 P Q M N &
 wait
 { head -4 SWEEP_1.md; for i in 1 2 3 4 5 6; do tail -n +5 SWEEP_$i.md; done; } > SWEEP.md
 echo "sweep done: $(grep -c '| caught |' SWEEP.md) caught, $(grep -c 'NOT CAUGHT\|DOES NOT APPLY' SWEEP.md) not"
